@@ -261,7 +261,27 @@ pub fn gen(seed: u64, n: usize, tier: &str) -> Vec<Case> {
     cases
 }
 
-pub fn run(c: &Case) -> Case { run_case(c, &SrvOpts::default()) }
+/// As srv::run_case; additionally, once a connection was found closed, waits (up to 5 s) for the
+/// server process to finish dying so that the final liveness line is deterministic.
+pub fn run(c: &Case) -> Case {
+    let mut r = Runner::new(&SrvOpts::default());
+    let mut out = Case { id: c.id.clone(), ops: vec![], outs: vec![] };
+    let mut closed = false;
+    for op in &c.ops {
+        let (o2, res) = r.op(op);
+        if res.len() == 1 && res[0] == b("CLOSED") { closed = true; }
+        out.ops.push(o2); out.outs.push(res);
+    }
+    if closed {
+        let t0 = std::time::Instant::now();
+        while r.srv.alive() && t0.elapsed() < std::time::Duration::from_secs(5) { std::thread::sleep(std::time::Duration::from_millis(10)); }
+    }
+    let drift = r.drift_bad && !closed;
+    let alive = r.finish();
+    if !alive { out.ops.push(vec![b("ALIVE")]); out.outs.push(vec![i(0)]); }
+    if drift { out.id = format!("{}-DISCARD", out.id); }
+    out
+}
 
 // ---------------------------------------------------------------- property oracle
 fn dec_reply(out: &[Tok]) -> Option<V> { let mut p = 0; V::dec(out, &mut p) }
